@@ -511,9 +511,14 @@ fn main() {
         .unwrap_or(0usize);
     let cases = args[1].clone();
     let events = args[2].clone();
-    // 8 MiB: the Linux main-thread default, stated as an assumption in DESIGN.md
+    // 8 MiB: the Linux main-thread default, stated as an assumption in DESIGN.md. Sanitizer builds
+    // have much larger frames; their stages raise it through CELMON_STACK_MB.
+    let stack_mb = std::env::var("CELMON_STACK_MB")
+        .ok()
+        .and_then(|s| s.parse::<usize>().ok())
+        .unwrap_or(8);
     let h = std::thread::Builder::new()
-        .stack_size(8 << 20)
+        .stack_size(stack_mb << 20)
         .spawn(move || run(cases, events, skip))
         .expect("spawn");
     if h.join().is_err() {
